@@ -183,7 +183,7 @@ def r1b(ctx):
             if cont is False:
                 exp += ["curr_line.physical_update", "curr_line.physical_reset"]
             proc = [c for c in calls if c[0] == "cleaner.process"]
-            okp = len(proc) == 1 and proc[0][1] == ("SLICE(SRC.flushed_line, 0, len(SRC.flushed_line))",)
+            okp = len(proc) == 1 and proc[0][1] == ("SLICE(SRC.flushed_line, len(SRC.flushed_line))",)
             addl = [c for c in calls if c[0] == "curr_line.add_physical_lines"]
             oka = all(c[1] == ("SRC.lines",) for c in addl)
             oky = ys == (["curr_line"] if (cont is False and lblank is False) else [])
